@@ -26,8 +26,9 @@ def fresh_case(sc):
             await rec_w(**kw)
             return {'seen': kw['spec'].get('x')} if mirror else None      # a result is patched into the status: a non-empty patch
         kopf.on.event(GROUP, VERSION, PLURAL, registry=reg, id='w')(w)
-        kopf.on.create(GROUP, VERSION, PLURAL, registry=reg, id='a')(sim.handler('a'))
-        kopf.on.update(GROUP, VERSION, PLURAL, registry=reg, id='a')(sim.handler('a'))
+        ha = sim.handler('a', list(sc.get('ascript') or []))      # (`ascript`: the change handler fails temporarily a few times: C11's DelayMonitor)
+        kopf.on.create(GROUP, VERSION, PLURAL, registry=reg, id='a')(ha)
+        kopf.on.update(GROUP, VERSION, PLURAL, registry=reg, id='a')(ha)
         conflict = sc.get('conflict')
         if conflict:
             # `conflict` = t: the object is deleted at t; its (slow) deletion handler is still running when a foreign edit is made (that
@@ -98,7 +99,9 @@ def fresh_case(sc):
             if e['ev'] == 'srv.req' and e.get('kind') == 'patch' and e.get('plural') == PLURAL and e.get('loop') == 'op1' and e.get('code') == 200 and e.get('changed'):
                 events.append({'ev': 'patch', 't': e['t'], 'rv': e['rv_after']})
             elif e['ev'] == 'h.enter' and e.get('id') == 'a':
-                events.append({'ev': 'inv', 't': e['t'], 'rv': e.get('rv') or 0})
+                sc_ = e.get('script')
+                events.append({'ev': 'inv', 't': e['t'], 'rv': e.get('rv') or 0, 'retry': e.get('retry') or 0,
+                               'k': sc_ if isinstance(sc_, str) else (sc_[0] if sc_ else 'ok'), 'd': 0 if isinstance(sc_, str) or not sc_ or sc_[0] != 'temp' else sc_[1]})
             elif e['ev'] == 'h.enter' and e.get('id') == 'w':
                 events.append({'ev': 'winv', 't': e['t'], 'rv': e.get('rv') or 0})
             elif e['ev'] == 'srv.watch.line' and e.get('res') == PLURAL and e.get('loop') == 'op1' and e.get('rv') is not None:
